@@ -62,10 +62,16 @@ func (g *c09gen) page() c09page {
 	if rtl {
 		p.kind += "+rtl"
 	}
+	allNarrow := rng.Chance(1, 10)
+	if allNarrow {
+		p.kind += "+narrow"
+	}
 	for c := 0; c < ncol; c++ {
 		x0 := margin + float64(c)*(colW+gap)
 		y := y0
 		nlines := rng.Range(1, 14)
+		// a column of single words is narrower than any column the detector accepts
+		narrowCol := allNarrow || rng.Chance(1, 5)
 		for ln := 0; ln < nlines; ln++ {
 			if y < 60 {
 				break
@@ -76,11 +82,11 @@ func (g *c09gen) page() c09page {
 			}
 			x := x0
 			nwords := rng.Range(1, 7)
-			if rng.Chance(1, 8) {
+			if rng.Chance(1, 8) || narrowCol {
 				nwords = 1
 			}
 			justified := rng.Bool()
-			if rng.Chance(1, 9) {
+			if rng.Chance(1, 9) && !narrowCol {
 				// a list item
 				b := []string{"*", "-", "1.", "a)"}[rng.Intn(4)]
 				add(b, x, y, lineSize*0.6, lineSize, text.LTR)
